@@ -343,11 +343,19 @@ func c10FullStack(tcp bool) func() {
 		}
 		// the gateway keeps talking: one telegram before, several around and after the Close instant
 		mc.GoEnv("peer", func() {
-			for i := 0; i < 4; i++ {
-				ep.Inject(knxnet.AllocAndPack(&knxnet.TunnelReq{Channel: 7, SeqNumber: uint8(i), Payload: Msg(100 + i)}), nil)
-				if i == 0 {
-					mc.Sleep(50 * ms)
+			ep.Inject(knxnet.AllocAndPack(&knxnet.TunnelReq{Channel: 7, SeqNumber: 0, Payload: Msg(100)}), nil)
+			mc.Sleep(50 * ms)
+			if tcp {
+				// three frames in one segment: the stream reader holds the later ones in its buffer
+				var seg []byte
+				for i := 1; i < 4; i++ {
+					seg = append(seg, knxnet.AllocAndPack(&knxnet.TunnelReq{Channel: 7, SeqNumber: uint8(i), Payload: Msg(100 + i)})...)
 				}
+				ep.Inject(seg, nil)
+				return
+			}
+			for i := 1; i < 4; i++ {
+				ep.Inject(knxnet.AllocAndPack(&knxnet.TunnelReq{Channel: 7, SeqNumber: uint8(i), Payload: Msg(100 + i)}), nil)
 			}
 		})
 		mc.Sleep(50 * ms)
